@@ -32,6 +32,7 @@ type VerifCoordCall struct {
 	MemberID     string
 	GenerationID int32
 	Topics       []string                      // joinGroup: subscribed topics (first protocol); readPartitions; offsetFetch (request order)
+	UserData     []byte                        // joinGroup: user data of the first protocol's metadata (RackAffinity: the member's rack)
 	Protocols    []string                      // joinGroup: offered protocol names
 	Partitions   map[string][]int32            // offsetFetch
 	Offsets      map[string]map[int]int64      // offsetCommit
@@ -140,6 +141,7 @@ func verifJoinCall(id int, req joinGroupRequest) VerifCoordCall {
 			var md groupMetadata
 			if _, err := (&md).readFrom(bufio.NewReader(bytes.NewReader(p.ProtocolMetadata)), len(p.ProtocolMetadata)); err == nil {
 				c.Topics = md.Topics
+				c.UserData = md.UserData
 			}
 		}
 	}
